@@ -184,7 +184,7 @@ def encResult : Result Value → String
   | .error e => "(err " ++ encErr e ++ ")"
 
 def encIds (ids : List String) : String :=
-  "(" ++ " ".intercalate ((sortStrings ids).map (fun s => (Sexp.str s).toString)) ++ ")"
+  "(" ++ " ".intercalate (sortStrings (ids.map (fun s => (Sexp.str s).toString))) ++ ")"
 
 def encResponse (r : Response) : String :=
   "(resp " ++ (match r.decision with | .allow => "allow" | .deny => "deny") ++ " " ++ encIds r.reasons ++ " " ++ encIds r.errors ++ ")"
